@@ -74,6 +74,8 @@ class Esc:
             return Summary()
         self.inprog.add(key)
         F = P.func(q)
+        if getattr(P, 'expansion_faults', {}).get(q):
+            raise AnalysisError(P.expansion_faults[q])
         m, cls, fn, parent = F.mod, F.cls, F.node, F.parent
         S = Summary()
         res = S.raises
